@@ -321,8 +321,13 @@ def device_dialogues(acc, rng, out, app_hash, it, bad, do_authorize_signer):
         gd = GenuineLedger(rng, onboarded=True, mode=MODE_BOOTLOADER, pin=b"abcd1234")
         gd.sigauth_threshold = thr
         with AdminEnv(gd.dev, "ledger") as ae:
-            ok, so, exc = ae.run(do_authorize_signer,
-                                 options(pin="abcd1234", signer_authorization_file_path=out))
+            o = options(pin="abcd1234", signer_authorization_file_path=out)
+            if rng.random() < 0.5:
+                # through adm_ledger's own command line (parser, defaults, dispatch table)
+                acc.count("authorize_through_the_command_line")
+                ok, so, exc = ae.run_cli("authorize_signer", o)
+            else:
+                ok, so, exc = ae.run(do_authorize_signer, o)
         acc.count("device_dialogues")
         acc.evaluations += 1
         acc.distinct.add("dev|%d|%s" % (n, thr))
